@@ -1,9 +1,9 @@
-\* a node.Wait that releases finishedMu before it receives from errCh (seeded change C07-r2m1): the stopper and
-\* the task store's waiter both receive from the one-shot errCh of the same node, one of them blocks for ever.
-\* Expected: deadlock (either the stop call or the waiter never returns).
+\* a forkPoint that looks the task's edge up under tm.mu.RLock but calls Collect WITHOUT the lock (seeded C07-r3m1):
+\* StopTask/DeleteTask can close the edge while the forking goroutine is inside Collect on it.
+\* Expected: NoCollectOnClosed is violated (send on a closed channel - the process dies).
 SPECIFICATION Spec
 CONSTANTS
-    MaxPts = 2
+    MaxPts = 3
     K = 1
     BufSize = 2
     Topos <- MCToposSmall
@@ -15,9 +15,9 @@ CONSTANTS
     ReaderDone = TRUE
     AlertCloseOnErr = TRUE
     UdfStopAborts = FALSE
-    ForkHoldsRLock = TRUE
-    NWaiters = 1
-    WaitHoldsMu = FALSE
+    ForkHoldsRLock = FALSE
+    NWaiters = 0
+    WaitHoldsMu = TRUE
     HookNeedsTmLock = FALSE
 INVARIANTS
     TypeOK
